@@ -136,14 +136,14 @@ Variable K : config.
 
 Definition event := (path * list str)%type.   (* the bracket, and the strings its proxy holds at finalEval *)
 
-Definition tfinish (d : nat) (sub : list arg) (p : path) (r : list event * (outcome + list str)) : list event * sres :=
+Definition tfinish (child : bool) (d : nat) (sub : list arg) (p : path) (r : list event * (outcome + list str)) : list event * sres :=
   if too_deep K d then ([], SStop OTooDeep)
   else match sub with
        | [] => ([], SStop (OInvalid []))
        | _ =>
            match r with
            | (tr, inl o) => (tr, SStop o)
-           | (tr, inr strs) => (tr ++ [(p, strs)], snd (fin_spec final K strs))
+           | (tr, inr strs) => (tr ++ [(p, strs)], snd (fin_spec final K child strs))
            end
        end.
 
@@ -165,15 +165,15 @@ Definition tlist_with (f : nat -> arg -> list event * sres) : nat -> list arg ->
 Fixpoint targ (d : nat) (p : path) (i : nat) (a : arg) {struct a} : list event * sres :=
   match a with
   | AStr s => ([], SVal (Some s))
-  | ASub sub => tfinish (S d) sub (p ++ [i]) (tlist_with (fun j x => targ (S d) (p ++ [i]) j x) 0 sub)
+  | ASub sub => tfinish true (S d) sub (p ++ [i]) (tlist_with (fun j x => targ (S d) (p ++ [i]) j x) 0 sub)
   end.
 Definition tlist (d : nat) (p : path) (i : nat) (l : list arg) := tlist_with (fun j x => targ d p j x) i l.
 
-Definition trace_res (tokens : list arg) : list event * sres := tfinish 0 tokens [] (tlist 0 [] 0 tokens).
+Definition trace_res (tokens : list arg) : list event * sres := tfinish false 0 tokens [] (tlist 0 [] 0 tokens).
 Definition trace (tokens : list arg) : list event := fst (trace_res tokens).
 
 (* the calls an event list stands for *)
-Definition calls_of (tr : list event) : list entry := flat_map (fun ev => fst (fin_spec final K (snd ev))) tr.
+Definition calls_of (tr : list event) : list entry := flat_map (fun ev => fst (fin_spec final K false (snd ev))) tr.
 
 Lemma calls_of_app a b : calls_of (a ++ b) = calls_of a ++ calls_of b.
 Proof. apply flat_map_app. Qed.
@@ -196,10 +196,10 @@ Proof.
   destruct r2 as [o|strs]; simpl; rewrite calls_of_app; split; reflexivity.
 Qed.
 
-Lemma finish_link d sub p lg tr r :
+Lemma finish_link child d sub p lg tr r :
   lg = calls_of tr ->
-  fst (finish final K d sub (lg, r)) = calls_of (fst (tfinish d sub p (tr, r))) /\
-  snd (finish final K d sub (lg, r)) = snd (tfinish d sub p (tr, r)).
+  fst (finish final K child d sub (lg, r)) = calls_of (fst (tfinish child d sub p (tr, r))) /\
+  snd (finish final K child d sub (lg, r)) = snd (tfinish child d sub p (tr, r)).
 Proof.
   intro H. subst lg. unfold finish, tfinish. destruct (too_deep K d); [split; reflexivity|].
   destruct sub as [|a sub]; [split; reflexivity|].
@@ -226,8 +226,8 @@ Proof.
   unfold eval_spec, trace, trace_res.
   destruct (link_list tokens (proj2 (Forall_forall _ _) (fun a _ => link_arg_all a)) 0 [] 0) as [H1 H2].
   destruct (spec_list final K 0 tokens) as [lg r]. destruct (tlist 0 [] 0 tokens) as [tr r']. simpl in H1, H2. subst r'.
-  destruct (finish_link 0 tokens [] lg tr r H1) as [H3 H4].
-  destruct (finish final K 0 tokens (lg, r)) as [lg' s]. simpl in H3, H4.
+  destruct (finish_link false 0 tokens [] lg tr r H1) as [H3 H4].
+  destruct (finish final K false 0 tokens (lg, r)) as [lg' s]. simpl in H3, H4.
   split; [destruct s as [[?|]|?]; exact H3|].
   clear H3. split; [intros v Hv; rewrite <- H4 in Hv; rewrite Hv; destruct v; reflexivity
          |intros o Ho; rewrite <- H4 in Ho; rewrite Ho; reflexivity].
@@ -308,3 +308,45 @@ Proof.
     rewrite <- postorder_length, E. symmetry. apply map_length.
 Qed.
 End Tr.
+
+(* ---- what a command is called with: the values of its children, in order ---- *)
+Section Values.
+Variable final : list str -> finalres.
+Variable K : config.
+
+(* the strings one argument contributes to its proxy's final argument list *)
+Definition contributes (d : nat) (a : arg) : list str :=
+  match snd (spec_arg final K d a) with
+  | SVal v => opt_list v
+  | SStop _ => []
+  end.
+
+Theorem args_are_children_values d l lg strs :
+  spec_list final K d l = (lg, inr strs) -> strs = flat_map (contributes d) l.
+Proof.
+  unfold Model.spec_list. revert lg strs. induction l as [|a r IH]; intros lg strs H; simpl in H.
+  - inversion H. reflexivity.
+  - simpl. unfold contributes at 1.
+    destruct (spec_arg final K d a) as [lg1 [v|o]]; [|discriminate]. simpl.
+    destruct (spec_list_with (fun x => spec_arg final K d x) r) as [lg2 [o|strs2]] eqn:Hr; [discriminate|].
+    inversion H; subst. f_equal. apply (IH lg2). reflexivity.
+Qed.
+
+(* a string contributes itself; a bracket whose command tagged the message 'ignored' contributes nothing (whether it
+   then called noReply, like Utilities.ignore, or replied); any other bracket contributes exactly its reply
+   (nothing for noReply) *)
+Theorem bracket_contributes d sub lg strs :
+  too_deep K (S d) = false -> sub <> [] -> strs <> [] ->
+  spec_list final K (S d) sub = (lg, inr strs) ->
+  forall v, fr_res (final strs) = SVal v ->
+  contributes d (ASub sub) = if fr_tag (final strs) then [] else opt_list v.
+Proof.
+  intros Hd Hs Hn Hsp v Hv. unfold contributes. simpl.
+  unfold Model.spec_list in Hsp. rewrite Hsp. rewrite (finish_inr final K true (S d) sub lg strs Hd Hs).
+  unfold fin_spec. destruct strs as [|s strs]; [congruence|]. simpl. unfold res_of. rewrite Hv. simpl.
+  destruct (fr_tag (final (s :: strs))); reflexivity.
+Qed.
+
+Lemma string_contributes d s : contributes d (AStr s) = [s].
+Proof. reflexivity. Qed.
+End Values.
